@@ -20,19 +20,30 @@ func c18Gen(r *kit.Rng) *histScenario {
 	sk := store.Variant(r, c18Stores[r.Intn(len(c18Stores))])
 	st, _ := store.New(sk)
 	caps := st.Caps()
-	caps.Choices = false
+	if !r.Chance(1, 3) {
+		caps.Choices = false // a third of the schemas have choices (in lists too): replace must not let a case of the old content survive
+	}
 	caps.MaxNodes = r.Range(8, 22)
 	if r.Chance(1, 2) {
 		caps.MapLists = false // emphasis on slice-backed lists
 	}
-	s := schema.Generate(r, caps, "m", false, true)
+	s := schema.Generate(r, caps, "m", caps.Choices && r.Chance(1, 2), true)
 	o := st.GenOpts()
 	o.Density = r.Pick3(50, 70, 90)
 	o.MaxEntries = r.Pick3(3, 5, 8)
 	o.KeyPool = o.MaxEntries + 2
 	init := model.Random(r, s, o.WithBudget(60), 0)
 	g := &opGen{r: r, o: o, srcs: []string{"json", "xml", "mnode"},
-		kinds: []string{"delete", "delete", "delete", "sweep", "replace", "replace", "upsert", "insert", "upsert"}}
+		kinds: []string{"delete", "delete", "delete", "sweep", "batch-delete", "list-session", "replace", "replace", "upsert", "insert", "upsert"}}
+	if caps.Choices {
+		// an insert of a node of another case is not what this property (or the
+		// one-case property, which speaks of upserts) defines: upserts instead
+		for i, k := range g.kinds {
+			if k == "insert" {
+				g.kinds[i] = "upsert"
+			}
+		}
+	}
 	sc := &histScenario{Schema: s, Store: sk, Init: init}
 	cur := init.Clone()
 	n := r.Range(3, 25)
